@@ -252,7 +252,7 @@ def random_walks(mon: Monitor, rng: random.Random, count: int) -> None:
 
 
 # --------------------------------------------------------------------------- B. file sink
-def sink_case(mon: Monitor, rng: random.Random, workdir: str) -> None:
+def sink_case(mon: Monitor, rng: random.Random, workdir: str, big=None) -> None:
     from odc.geo.cog._mpu_fs import MPUFileSink
 
     d = tempfile.mkdtemp(prefix="sink-", dir=workdir)
@@ -274,6 +274,12 @@ def sink_case(mon: Monitor, rng: random.Random, workdir: str) -> None:
         n = rng.randint(1, 6)
         ids = rng.sample(range(1, 60), n)
         datas = [os.urandom(rng.choice([0, 1, 10, m - 1, m, 3 * m, 5000])) for _ in ids]
+        if big is not None:
+            # one part of tens of megabytes among small ones (a full-resolution level next to overview levels): whatever faster copy path large parts take, order is order
+            n = max(n, 3)
+            ids = rng.sample(range(1, 60), n)
+            datas = [os.urandom(rng.choice([1, 10, 100, 3000])) for _ in ids]
+            datas[big % n if big % n else 1] = os.urandom(1) * ((1 << 24) + rng.choice([0, 5, 4096])) if rng.random() < 0.5 else os.urandom((1 << 24) + 5)
         # an earlier round on the same destination that left its part files behind (it crashed before finalise, or finalised with keep_parts=True): same part numbers,
         # same sizes, other bytes - and, within a round, a part written a second time with other bytes of the same length (a retried task): the last write counts
         earlier = rng.choice([None, None, None, "crashed", "kept-parts"])
@@ -440,6 +446,13 @@ def run(mon: Monitor, tier: str, seed: int, shard: int, nshards: int) -> None:
                 sink_case(mon, random.Random(rs), workdir)
             except Exception as e:
                 mon.error("sink", e)
+        for k in range(3 if q else 12):
+            mon.case = {"kind": "sink-big", "k": k}
+            try:
+                sink_case(mon, random.Random(7000 + k), workdir, big=k + 1)
+                mon.ok("filesink.history", cls="part-of-16MiB-or-more")
+            except Exception as e:
+                mon.error("sink", e)
         mon.case = None
     finally:
         shutil.rmtree(workdir, ignore_errors=True)
@@ -448,7 +461,7 @@ def run(mon: Monitor, tier: str, seed: int, shard: int, nshards: int) -> None:
         real_cluster(mon, rng, 2)
     elif shard == 0:
         real_cluster(mon, rng, 30)
-    floors = [("schedule", 1500 if q else 3000), ("filesink", 200), ("limits", 30), ("filesink|default|empty-part", 5), ("filesink|relocated", 20), ("filesink|default|existing-destination", 5), ("filesink.history|earlier-round:crashed", 10), ("filesink.history|earlier-round:kept-parts", 10), ("filesink.history|part-rewritten", 10), ("limits|MPUFileSink", 25)]
+    floors = [("schedule", 1500 if q else 3000), ("filesink", 200), ("limits", 30), ("filesink|default|empty-part", 5), ("filesink|relocated", 20), ("filesink|default|existing-destination", 5), ("filesink.history|earlier-round:crashed", 10), ("filesink.history|earlier-round:kept-parts", 10), ("filesink.history|part-rewritten", 10), ("filesink.history|part-of-16MiB-or-more", 3), ("limits|MPUFileSink", 25)]
     if q or nshards == 1:
         floors += [("schedule|local|n=2|dfs", 200), ("schedule|cluster-prepared|n=2|dfs", 200), ("schedule|cluster-unprepared|n=2|dfs", 200), ("schedule|local|n=3|dfs", 200), ("schedule|local-cold|n=2|dfs", 200), ("real-cluster", 2),
                    ("schedule|cluster-shared-prepared|n=2|dfs", 200), ("schedule|cluster-shared-unprepared|n=2|dfs", 200)]
@@ -464,6 +477,13 @@ def replay(mon: Monitor, case) -> None:
             run_one(mon, case["mode"], case["n"], case["second"], case["prefix"], cls="replay")
         finally:
             sched.unwatch()
+    elif case["kind"] == "sink-big":
+        WORK_DIR.mkdir(parents=True, exist_ok=True)
+        wd = tempfile.mkdtemp(prefix=f"c18-{os.getpid()}-", dir=str(WORK_DIR))
+        try:
+            sink_case(mon, random.Random(7000 + case["k"]), wd, big=case["k"] + 1)
+        finally:
+            shutil.rmtree(wd, ignore_errors=True)
     elif case["kind"] == "sink":
         WORK_DIR.mkdir(parents=True, exist_ok=True)
         workdir = tempfile.mkdtemp(prefix=f"c18-{os.getpid()}-", dir=str(WORK_DIR))
